@@ -54,6 +54,14 @@ CHECKS = {
         note="Variants are built with the raw dataclass constructors; equality is y0's own dataclass equality plus exact structure.",
         design="4/C11",
     ),
+    "C12": dict(
+        text="Breadth-first exploration of expressions built by the public operators from an alphabet with value marks, + / - "
+        "subscripts, populations, Q-factors and constants: every state is printed and parsed back; the parsed object's value "
+        "function (opaque-leaf semantics, exact rationals, every assignment) must equal the original's, and in the "
+        "un-nested-division sub-family the parsed object must be equal and print identically.",
+        note="Trusted: evaluator with opaque leaves (a term's value depends only on its item set and population).",
+        design="4/C12",
+    ),
     "C13": dict(
         text="Same state space: every operator / helper of the menu is applied to every source state (binary operators with every "
         "atom on either side, every range subset, every ordering); the result's value function is compared with the mathematical "
